@@ -73,7 +73,8 @@ def hashes_for(rng, scheme, n):
             continue
     if scheme in CATCHALL:
         # passwords that look a little like something else but are claimed by no real scheme
-        for pw in ("{unclosed", "{}", "{x-y}z", "{ spaced }pw", "!bang", "*star", "$notahash", "x{SSHA}", "a:b", "{é-}x", "!", "*", "", "пароль", "é", "密码 with blanks"):
+        for pw in ("{unclosed", "{}", "{x-y}z", "{ spaced }pw", "!bang", "*star", "$notahash", "x{SSHA}", "a:b", "{é-}x", "!", "*", "", "пароль", "é", "密码 with blanks", "a{plaintext}b", "ab{plaintext}", "{pass-word}123",
+                   "x" + (getattr(h, "prefix", None) or "{plaintext}") + "y" + (getattr(h, "prefix", None) or "") + "z"):
             try:
                 out.append((h.hash(pw), pw, {}, "hostile-first-character" if pw else "empty-password"))
             except Exception:
@@ -299,6 +300,48 @@ def concurrent_first_use(run):
         sys.setswitchinterval(old)
 
 
+def catch_all_as_default(run):
+    """the documented way to make a catch-all the default (ctx.copy(default=...), HtpasswdFile(default_scheme=...)) changes which
+    scheme new hashes use - not which scheme an existing hash is attributed to"""
+    cs = contexts()
+    for cname, ctx in cs.items():
+        if isinstance(ctx, Exception):
+            continue
+        try:
+            schemes = list(ctx.schemes())
+        except Exception:
+            continue
+        ca = [s_ for s_ in schemes if s_ in CATCHALL]
+        if not ca:
+            continue
+        rng = run.rng("cad:" + cname)
+        try:
+            derived = ctx.copy(default=ca[0])
+        except ValueError:
+            run.count("catch_all_default_refused")       # (e.g. the catch-all is deprecated in that context: it cannot be the default)
+            continue
+        except Exception as e:
+            run.violation(f"C17|{short(cname)}|copy-with-catch-all-default|{type(e).__name__}", f"{cname}.copy(default={ca[0]!r}) raised {e}", dict(context=cname))
+            continue
+        for s_ in schemes:
+            if s_ in CATCHALL or s_ in H.DISABLED or not H.usable(s_):
+                continue
+            for hs, pw, ck, variant in hashes_for(rng, s_, 2):
+                want = ctx.identify(hs)
+                got = derived.identify(hs)
+                run.count("catch_all_default_attributions")
+                run.case((cname, "catch-all-default", s_), None)
+                try:
+                    v_ok = derived.verify(pw, hs, **ck) if got == s_ else True
+                    v_text = derived.verify(hs, hs, **ck) if got == s_ else False
+                except ValueError:
+                    v_ok, v_text = (got != s_), False
+                if got != want or v_ok is not True or v_text is True:
+                    run.violation(f"C17|{short(cname)}|{s_}|copy-with-catch-all-default", f"{cname}.copy(default={ca[0]!r}): a {s_} hash is attributed to {got!r} (the shipped context says {want!r})",
+                                  dict(context=cname, scheme=s_, hash=hs, password=pw))
+                    break
+
+
 ORDER_PROBE = r"""
 import json, sys, warnings, importlib
 warnings.simplefilter("ignore")
@@ -348,6 +391,8 @@ def import_orders(run):
 def body(run):
     import_orders(run)
     concurrent_first_use(run)
+    catch_all_as_default(run)
+    run.require("catch_all_default_attributions", 20)
     run.require("concurrent_first_use_rounds", 100)
     run.require("import_orders", 6)
     run.require("category_attributions", 200)
